@@ -2,8 +2,8 @@
 """Regenerates MANIFEST.json from runner/props.py + runner/manifest_meta.py (kept valid at all times)."""
 import json, os, sys
 sys.path.insert(0, os.path.dirname(os.path.abspath(__file__)))
-from props import PROPS
-from manifest_meta import META, NOT_BUILT_REASON, HOOK_COMMITS
+from props import PROPS, META
+from manifest_meta import NOT_BUILT_REASON, HOOK_COMMITS, NA_REASONS
 ROOT = os.path.dirname(os.path.dirname(os.path.abspath(__file__)))
 ids = [json.loads(l)["id"] for l in open(os.path.join(ROOT, "properties.jsonl"))]
 checks, na = [], []
@@ -22,7 +22,7 @@ for pid in ids:
             "technique": m["technique"],
         })
     else:
-        na.append({"property_id": pid, "reason": META.get(pid, {}).get("na_reason", NOT_BUILT_REASON)})
+        na.append({"property_id": pid, "reason": NA_REASONS.get(pid, NOT_BUILT_REASON)})
 man = {
     "version": 1,
     "setup_cmd": "./check --setup",
